@@ -15,45 +15,45 @@ import (
 // to this tree (inconclusive), it is not a violation. The scenarios only tell the roles apart;
 // they do not judge correctness (that is the harness's business).
 
-func calibrateExamineSnaps() {
+func vxCalibrateExamineSnaps() {
 	dir := vxrt.Dir() + "/calibrate"
 	p := dir + "/k.snap"
-	content := frame("TestK - 1", "a") + frame("TestOld - 1", "s")
+	content := vxFrame("TestK - 1", "a") + vxFrame("TestOld - 1", "s")
 	reg := map[string]map[string]int{p: {"TestK": 1}}
-	writeFile(p, content)
+	vxWriteFile(p, content)
 	_, err1 := examineSnaps(reg, []string{p}, "", 1, true, false) // "update": the stale entry goes
-	_, _, gone := refPrev("[TestOld - 1]", p)
-	writeFile(p, content)
+	_, _, gone := vxRefPrev("[TestOld - 1]", p)
+	vxWriteFile(p, content)
 	_, err2 := examineSnaps(reg, []string{p}, "", 1, false, true) // "sort" alone: it stays
-	_, _, kept := refPrev("[TestOld - 1]", p)
-	removeFile(p)
-	removeFile(dir)
+	_, _, kept := vxRefPrev("[TestOld - 1]", p)
+	vxRemoveFile(p)
+	vxRemoveFile(dir)
 	vxrt.Calibrate(err1 == nil && err2 == nil && gone != nil && kept == nil, "examineSnaps(registry, files, runOnly, count, update, sort)")
 }
 
-func calibrateSummary() {
+func vxCalibrateSummary() {
 	s := summary([]string{"only-a-file"}, nil, 0, map[uint8]int{}, false)
 	vxrt.Calibrate(strings.Contains(s, "1 snapshot file obsolete") && strings.Contains(s, "only-a-file"), "summary(obsoleteFiles, obsoleteTests, skipped, events, removed)")
 }
 
-func calibratePrettyDiff() {
+func vxCalibratePrettyDiff() {
 	rep := prettyDiff("kept\ngone\n", "kept\n", "", 1)
 	vxrt.Calibrate(strings.Contains(rep, "Snapshot - 1") && strings.Contains(rep, "Received + 0"), "prettyDiff(expected, received, path, line)")
 }
 
-func calibrateStorage() {
+func vxCalibrateStorage() {
 	dir := vxrt.Dir() + "/calibrate"
 	p := dir + "/k.snap"
 	err1 := addNewSnapshot("[TestK - 1]", "kbody", p)
-	added := readFile(p) == frame("TestK - 1", "kbody")
+	added := vxReadFile(p) == vxFrame("TestK - 1", "kbody")
 	err2 := updateSnapshot("[TestK - 1]", "nbody", p)
-	updated := readFile(p) == frame("TestK - 1", "nbody")
-	removeFile(p)
-	removeFile(dir)
+	updated := vxReadFile(p) == vxFrame("TestK - 1", "nbody")
+	vxRemoveFile(p)
+	vxRemoveFile(dir)
 	vxrt.Calibrate(err1 == nil && err2 == nil && added && updated, "addNewSnapshot/updateSnapshot(testID, snapshot, snapPath)")
 }
 
-func calibrateSnapshotPath() {
+func vxCalibrateSnapshotPath() {
 	abs, _ := snapshotPath(WithConfig(Dir("/abs/q"), Filename("k")), "TestK", false)
 	vxrt.Calibrate(abs == "/abs/q/k.snap", "snapshotPath(config, testName, standalone) (absolute, relative)")
 }
